@@ -36,7 +36,7 @@ CHECKS = {
              essential=_ALL_SCHEMAS + ["depth>=3", "move-non-last-sibling", "remove-with-subtree", "cycle-attempt", "name:invalid",
                                        "rename-above-grandchildren", "move-into-empty-parent", "duplicate-name-rejected",
                                        "move:older-under-newer", "prelude:inverted-ages", "1.x:cycle-attempt:onto-older-descendant",
-                                       "2.x:cycle-attempt:onto-older-descendant", "decoy-library", "decoy-step"]),
+                                       "2.x:cycle-attempt:onto-older-descendant", "decoy-library", "decoy-step", "ops-via-second-handles"]),
         # bounded-exhaustive over applicable operations only (subsumes the former 42-letter enumerations enum2 / enum3): every sequence of
         # <= 4 (quick, 3 schemas; thorough, all 18 schemas) / <= 5 (thorough, 3 schemas) applicable operations from the empty library
         dict(prop="C07.dfs4", harness="api_pbt", quick=dict(count="enum", workers=8), thorough=dict(count=0, workers=1),
@@ -50,13 +50,13 @@ CHECKS = {
         dict(prop="C08", harness="api_pbt", quick=dict(count=4000, workers=8), thorough=dict(count=150000, workers=16),
              essential=_ALL_SCHEMAS + ["diverged-ids", "remove-member-track", "remove-crate-with-members", "track-created-after-removal",
                                        "add-existing-member", "remove-non-member", "1.x:add_track(id)", "2.x:add_track(id)",
-                                       "1.x:clear_tracks", "2.x:clear_tracks", "decoy-library", "decoy-step"])]),
+                                       "1.x:clear_tracks", "2.x:clear_tracks", "decoy-library", "decoy-step", "ops-via-second-handles"])]),
     "C09": dict(level="exploration", parts=[
         dict(prop="REG", harness="api_pbt", quick=dict(count=0, workers=1), thorough=dict(count=0, workers=1)),  # regression scenarios
         dict(prop="C09", harness="api_pbt", quick=dict(count=2400, workers=8), thorough=dict(count=100000, workers=16),
              essential=_V2_SCHEMAS + ["move:first-of>=3", "move:middle-of>=3", "move:last-of>=3", "move-into-empty-parent",
                                       "remove-entity:middle-of>=3", "insert-after:middle-of>=3", "insert-after:first-of>=3",
-                                      "remove-sibling:middle-of>=3", "remove-sibling:first-of>=3", "decoy-library", "decoy-step"]),
+                                      "remove-sibling:middle-of>=3", "remove-sibling:first-of>=3", "decoy-library", "decoy-step", "ops-via-second-handles"]),
         dict(prop="C09.table", harness="table_pbt", quick=dict(count=3000, workers=4), thorough=dict(count=120000, workers=16),
              essential=_V2_SCHEMAS + ["entity:add_back", "entity:remove-non-last", "entity:clear", "playlist:remove", "playlist:add-before-sibling",
                                       "playlist:move-reorder", "playlist:move-reparent"])]),
@@ -374,7 +374,8 @@ ASSUMPTIONS = {
     "C01": ["strings are valid UTF-8 without NUL (SQLite TEXT / C-string precondition)",
             "the expected read-back table of DESIGN appendix A is the reading of 'each field the schema can represent exactly as given'"],
     "C06": ["same domain and normalisation table as C01", "2.x set_waveform stores the overview resampled with the sample count/rate of the moment"],
-    "C07": ["1.x hands the highest crate id out again after its removal (recorded as a known finding); stale handles are only checked until then"],
+    "C07": ["1.x hands the highest crate id out again after its removal (recorded as a known finding); stale handles are only checked until then",
+            "every crate has two handles kept for the whole history (the one its creation returned and one from a separate crate_by_id lookup): one operation in three is made through the second handles, all checks read through the first; one case in three also keeps a second library open in the same process"],
     "C08": ["2.x track::containing_crates() is documented as not implemented; a std::runtime_error there is tolerated",
             "one case in three runs with a second library of the same schema open in the same process (same ids, other names and memberships), operated on in between and checked against its own small model"],
     "C09": ["a set_parent within the same parent may leave the crate in place or move it to the end"],
